@@ -43,7 +43,8 @@ PUNCT = [".", ",", ";", ":", "-", "(", ")", "!", "?", "'", "/", "|", "@", "*", "
 SPECIAL = ["&", "%", "#", "_", "$", "{", "}", "~", "\\", "<", ">"]
 MATH = ["$x+y$", "$a_1$", "$5\\$+3\\$-x$"]  # (the last: a formula holding two escaped dollar signs)
 URLS = ["http://a.b/c", "http://a.b/c_d", "www.x.org"]
-SIGMA = LETTERS + ACCENTED + PUNCT + SPECIAL + MATH + URLS
+NOT_URLS = ["HTTP://A.B/c", "WWW.X.ORG", "Http://a.b"]  # upper / mixed case: ordinary text for the URL rule, so any character may follow
+SIGMA = LETTERS + ACCENTED + PUNCT + SPECIAL + MATH + URLS + NOT_URLS
 SIGMA_CORE = ["a", " ", "\xe9", "&", "%", "$a_1$", "http://a.b/c", "~"]
 OPTIONS = [(True, True), (True, False), (False, True), (False, False)]  # (keep_math, enclose_urls)
 
@@ -234,6 +235,26 @@ class ArgsBoom:
     def unicode_to_latex(self, s):
         if "BOOM" in s:
             raise self.make()
+        return s + "!"
+
+    latex_to_text = unicode_to_latex
+
+
+class Reentrant:
+    """A converter through which the SAME middleware instance is entered again for another entry while it is in the
+    middle of one (what a parallel run of an `allow_parallel_execution` middleware interleaves; here deterministic)."""
+
+    def __init__(self):
+        self.mw = None
+        self.inner = None
+        self.inner_result = None
+
+    def unicode_to_latex(self, s):
+        if "BOOM" in s:
+            raise ValueError("boom in " + s)
+        if "NEST" in s and self.inner is not None:
+            inner, self.inner = self.inner, None
+            self.inner_result = self.mw.transform_entry(inner, None)
         return s + "!"
 
     latex_to_text = unicode_to_latex
@@ -441,6 +462,34 @@ def check_contain_types(acc):
                     ok = ok and isinstance(b1.ignore_error_block if isinstance(b1, MiddlewareErrorBlock) else None, String)
                     if not ok:
                         acc.violation({"oracle": "error_block_holds_original_entry", "where": "exception arguments / format characters in the value"}, {"case": case, "observed": [type(x).__name__ for x in out.blocks], "expected": "error blocks for the failing entry and string, the other entry converted"})
+    # two entries in flight on one instance: the failure of one is not the failure of the other
+    for enc in (True, False):
+        for outer_fails, inner_fails in ((False, True), (True, False), (False, False), (True, True)):
+            for nest_at in (0, 1, 2):
+                conv_ = Reentrant()
+                m = LatexEncodingMiddleware(encoder=conv_, allow_inplace_modification=True) if enc else LatexDecodingMiddleware(decoder=conv_, allow_inplace_modification=True)
+                conv_.mw = m
+                ovals = ["o1", "o2", "o3"]
+                ovals[nest_at] = "NEST here"
+                if outer_fails:
+                    ovals[(nest_at + 1) % 3] = "BOOM outer"
+                outer = Entry("a", "outer", [Field("f%d" % i, v) for i, v in enumerate(ovals)], 0, "@a{outer}")
+                conv_.inner = Entry("b", "inner", [Field("g", "BOOM inner" if inner_fails else "fine")], 1, "@b{inner}")
+                case = {"reentrant": {"outer_fails": outer_fails, "inner_fails": inner_fails, "nested_at_field": nest_at}, "encoder": enc}
+                acc.trace(2)
+                acc.case(nontrivial_key=("reentrant", enc, outer_fails, inner_fails, nest_at))
+                try:
+                    ro = m.transform_entry(outer, None)
+                    ri = conv_.inner_result
+                except BaseException as ex:
+                    acc.violation({"oracle": "conversion_failure_contained", "exception": type(ex).__name__}, {"case": case, "observed": repr(ex)[:200], "expected": "blocks, no exception"})
+                    continue
+                ok = isinstance(ro, MiddlewareErrorBlock) == outer_fails and isinstance(ri, MiddlewareErrorBlock) == inner_fails
+                if not ok:
+                    acc.violation(
+                        {"oracle": "failure_of_one_block_does_not_touch_others", "where": "two entries in flight on one instance"},
+                        {"case": case, "observed": [type(ro).__name__, type(ri).__name__], "expected": ["MiddlewareErrorBlock" if outer_fails else "Entry", "MiddlewareErrorBlock" if inner_fails else "Entry"]},
+                    )
     for depth in (10, 100, 400, 1000, 3000):
         for ip in (True, False):
             for which in ("enc", "dec"):
